@@ -611,7 +611,51 @@ func (ck *checker) compare(where string, c *meta.Client, want []dbT) (string, in
 		ck.drift["order_of_databases_or_policies_differs"] = true
 		return "", nil
 	}
-	return where + ": meta data differs from the specification", got
+	return where + ": meta data differs from the specification: " + diffListing(got, w), got
+}
+
+// diffListing names the first difference (for the message only; the verdict is the comparison above).
+func diffListing(got, want []dbT) string {
+	find := func(l []dbT, n string) *dbT {
+		for i := range l {
+			if l[i].N == n {
+				return &l[i]
+			}
+		}
+		return nil
+	}
+	for _, wd := range want {
+		gd := find(got, wd.N)
+		if gd == nil {
+			return fmt.Sprintf("database %s is missing", wd.N)
+		}
+		if gd.Def != wd.Def {
+			return fmt.Sprintf("database %s: default policy %q, specification %q", wd.N, gd.Def, wd.Def)
+		}
+		if len(gd.RPs) != len(wd.RPs) {
+			return fmt.Sprintf("database %s has %d policies, specification %d", wd.N, len(gd.RPs), len(wd.RPs))
+		}
+		for _, wr := range wd.RPs {
+			found := false
+			for _, gr := range gd.RPs {
+				if gr.N == wr.N {
+					found = true
+					if js(gr) != js(wr) {
+						return fmt.Sprintf("policy %s/%s is %s, specification %s (dur / sgd are points of the duration scale)", wd.N, wr.N, js(gr), js(wr))
+					}
+				}
+			}
+			if !found {
+				return fmt.Sprintf("policy %s/%s is missing", wd.N, wr.N)
+			}
+		}
+	}
+	for _, gd := range got {
+		if find(want, gd.N) == nil {
+			return fmt.Sprintf("database %s exists, not in the specification", gd.N)
+		}
+	}
+	return "duplicate entries"
 }
 
 // Database / RetentionPolicy lookups for every name of the universe, against the expected listing.
